@@ -77,6 +77,25 @@ for dp, dn, fns in os.walk(os.path.join(REPO, "tradingenv")):
 json.dump(sigs, open(os.path.join(V, "sa", "known_signatures.json"), "w"), indent=1, sort_keys=True)
 print(len(sigs), "signatures")
 
+# attribute names of the reviewed tree (sa/known_attributes.json): every name stored through an attribute or bound at class level.
+# An attribute that is NOT in this list is new state; if every store sets it to one literal it is folded (sa/normalise.py::fold_constant_attributes)
+attrs = set()
+for dp, dn, fns in os.walk(os.path.join(REPO, "tradingenv")):
+    dn[:] = sorted(d for d in dn if d != "__pycache__")
+    for fn in sorted(fns):
+        if fn.endswith(".py"):
+            t = ast.parse(open(os.path.join(dp, fn), "rb").read())
+            for node in ast.walk(t):
+                if isinstance(node, ast.Attribute) and isinstance(node.ctx, (ast.Store, ast.Del)):
+                    attrs.add(node.attr)
+                elif isinstance(node, ast.ClassDef):
+                    for s_ in node.body:
+                        if isinstance(s_, (ast.Assign, ast.AnnAssign)):
+                            for tg in (s_.targets if isinstance(s_, ast.Assign) else [s_.target]):
+                                attrs |= {n.id for n in ast.walk(tg) if isinstance(n, ast.Name)}
+json.dump(sorted(attrs), open(os.path.join(V, "sa", "known_attributes.json"), "w"), indent=1)
+print(len(attrs), "attribute names")
+
 # digest of the reviewed tree (sa/reviewed_tree.sha256): on this very tree a failing checker self-validation fails the thorough run
 sys.path.insert(0, V)
 from sa.cli import tree_digest
